@@ -21,7 +21,7 @@ Descs == MyCases(Flatten2([i \in DOMAIN GridSeq |->
 Build(d) ==
   LET inputs == <<In("w", d[2], TRUE), In("c", d[2], FALSE), In("u", d[2], d[1] = "ok")>>
       code == <<Ins("mul", NoPar, <<1, 2>>)>>
-      base == MkCase("c17", "sgd", inputs, <<"any", "any,wide", "any">>, code, <<4>>, 4, FALSE)
+      base == MkCase("c17", "sgd", inputs, <<"any", "any,wide,t0", "any">>, code, <<4>>, 4, FALSE)     \* t0: a gradient that is exactly zero everywhere
   IN IF d[1] = "ok"
      THEN LET g == GradDef(inputs, code, 4, 1)
               w == SymT("w", d[2])
